@@ -19,7 +19,7 @@ ASSUMPTIONS = ["which canonical convention minimize() uses (trim or complete) is
                "symbol values within one pair are mutually orderable (mixed int/str symbol values are not generated)"]
 TIERS = {
     "quick": {"workers": 4, "random": 2500},
-    "thorough": {"workers": 16, "random": 9000, "pytest": True, "exhaustive": True, "hard_timeout": 3000},
+    "thorough": {"workers": 16, "random": 30000, "pytest": True, "exhaustive": True, "hard_timeout": 3000},
 }
 MIN = {"quick": {"C02.DeterministicFiniteAutomaton.is_equivalent_to": 500, "C02.FiniteAutomaton.__eq__": 200,
                  "C02.DeterministicFiniteAutomaton.minimize": 500},
